@@ -1,6 +1,7 @@
 package main
 
 import (
+	"go/types"
 	"context"
 	"flag"
 	"time"
@@ -24,6 +25,10 @@ func main() {
 		cmdCheck(os.Args[2:])
 	case "replay":
 		cmdReplay(os.Args[2:])
+	case "effect":
+		cmdEffect(os.Args[2:])
+	case "fields":
+		cmdFields(os.Args[2:])
 	default:
 		fmt.Fprintln(os.Stderr, "unknown command", os.Args[1])
 		os.Exit(2)
@@ -239,5 +244,68 @@ func explainVacuity(r *FnResult, p *Obligation) {
 			s = s[:600] + "..."
 		}
 		fmt.Printf("           contradiction appears with assumption #%d: %s\n             %s\n", lo, a.Why, s)
+	}
+}
+
+// effect: development command — `vgo effect [--repo dir] <eff> <fn-substring> <pkg>...` prints why a function may reach an effect source.
+func cmdEffect(args []string) {
+	fs := flag.NewFlagSet("effect", flag.ExitOnError)
+	repo := fs.String("repo", "/repo", "repository root")
+	_ = fs.Parse(args)
+	a := fs.Args()
+	if len(a) < 3 {
+		fmt.Fprintln(os.Stderr, "usage: vgo effect <eff> <fn-substring> <pkg>...")
+		os.Exit(2)
+	}
+	P, err := loadProgram(*repo, a[2:])
+	if err != nil {
+		fmt.Fprintln(os.Stderr, "load:", err)
+		os.Exit(2)
+	}
+	for f := range P.allRepoFuncs() {
+		if !strings.Contains(funcDisplay(f), a[1]) {
+			continue
+		}
+		fmt.Printf("%s: mayEffect(%s)=%v\n", funcDisplay(f), a[0], P.mayEffect(f, a[0]))
+		for _, l := range P.effectWitness(f, a[0]) {
+			fmt.Println("    ", l)
+		}
+	}
+}
+
+// fields: development command — `vgo fields <type-substring> <pkg>...` lists the immutable-after-construction fields.
+func cmdFields(args []string) {
+	if len(args) < 2 {
+		fmt.Fprintln(os.Stderr, "usage: vgo fields <type-substring> <pkg>...")
+		os.Exit(2)
+	}
+	P, err := loadProgram("/repo", args[1:])
+	if err != nil {
+		fmt.Fprintln(os.Stderr, "load:", err)
+		os.Exit(2)
+	}
+	for _, tp := range P.tpkgs {
+		if tp.Types == nil {
+			continue
+		}
+		sc := tp.Types.Scope()
+		for _, nm := range sc.Names() {
+			tn, ok := sc.Lookup(nm).(*types.TypeName)
+			if !ok {
+				continue
+			}
+			n, st := namedStruct(tn.Type())
+			if n == nil || !strings.Contains(types.TypeString(n, nil), args[0]) {
+				continue
+			}
+			im := map[int]bool{}
+			for _, i := range P.immutableFields(n) {
+				im[i] = true
+			}
+			fmt.Println(types.TypeString(n, nil))
+			for i := 0; i < st.NumFields(); i++ {
+				fmt.Printf("    %-28s immutable=%v\n", st.Field(i).Name(), im[i])
+			}
+		}
 	}
 }
